@@ -57,6 +57,7 @@ N_DECIMALS = 4            # "The number of decimals to keep for onset/offset thr
 _SCALE = 10 ** N_DECIMALS
 _HALF = Fraction(1, 2)
 EXHAUSTIVE_LIMIT = 8      # notes per side for enumerating all maximum matchings
+AMBIGUITY = 1e-6          # a note pair whose own margin is below this is "undecidable"
 
 
 def _fr(x):
@@ -156,16 +157,34 @@ def _offset_tolerance(on, off, offset_ratio, offset_min_tolerance):
 def _feasible(ref_iv, est_iv, ref_p, est_p, onset_tolerance, pitch_tolerance,
               offset_ratio, offset_min_tolerance, strict,
               use_onset=True, use_pitch=True, use_offset=True):
-    """All-pairs feasibility.  Returns (adj, margin) with adj[i] = list of
-    estimated notes that reference note i may be matched with."""
-    margin = INF
-    adj = []
+    """All-pairs feasibility.
+
+    Returns (adj_sure, adj_possible, margin_clear, margin_all):
+    adj_*[i] = estimated notes reference note i may be matched with, counting
+    a pair whose own margin is below AMBIGUITY as infeasible (sure) or as
+    feasible (possible); margin_clear = smallest pair margin among the
+    unambiguous pairs; margin_all = smallest pair margin overall."""
+    margin_clear = margin_all = INF
+    sure, possible = [], []
+    use_offset = use_offset and offset_ratio is not None
     for i, (r_on, r_off) in enumerate(ref_iv):
-        row = []
-        if use_offset and offset_ratio is not None:
+        row_sure, row_possible = [], []
+        if use_offset:
             off_tol, off_clean = _offset_tolerance(r_on, r_off, offset_ratio,
                                                    offset_min_tolerance)
         for j, (e_on, e_off) in enumerate(est_iv):
+            # cheap float pre-test: a pair whose onsets (offsets) are more than
+            # half a second beyond the tolerance fails with a margin > 0.49
+            if use_onset:
+                far = abs(r_on - e_on) - float(onset_tolerance)
+            elif use_offset:
+                far = abs(r_off - e_off) - off_tol
+            else:
+                far = 0.0
+            if far > 0.5:
+                margin_clear = min(margin_clear, far - 0.01)
+                margin_all = min(margin_all, far - 0.01)
+                continue
             tests = []
             if use_onset:
                 # "The onset of reference note i is within onset_tolerance of
@@ -176,19 +195,42 @@ def _feasible(ref_iv, est_iv, ref_p, est_p, onset_tolerance, pitch_tolerance,
                 # "The pitch of reference note i is within pitch_tolerance of
                 # the pitch of estimated note j"
                 tests.append(_pitch_test(ref_p[i], est_p[j], float(pitch_tolerance), strict))
-            if use_offset and offset_ratio is not None:
+            if use_offset:
                 # "the offset of reference note i has to be within
                 # offset_tolerance of the offset of estimated note j"
                 tests.append(_time_test(abs(_fr(r_off) - _fr(e_off)),
                                         off_tol, off_clean, strict))
             failing = [m for h, m in tests if not h]
-            if failing:
-                margin = min(margin, max(failing))
-            else:
-                row.append(j)
-                margin = min([margin] + [m for _, m in tests])
-        adj.append(row)
-    return adj, margin
+            # AND of the criteria: a hit is lost when its weakest criterion
+            # flips; a miss becomes a hit only when every failing one flips
+            pair_margin = max(failing) if failing else min([INF] + [m for _, m in tests])
+            margin_all = min(margin_all, pair_margin)
+            if pair_margin < AMBIGUITY:
+                row_possible.append(j)          # undecidable pair
+                continue
+            margin_clear = min(margin_clear, pair_margin)
+            if not failing:
+                row_sure.append(j)
+                row_possible.append(j)
+        sure.append(row_sure)
+        possible.append(row_possible)
+    return sure, possible, margin_clear, margin_all
+
+
+def _robust(sure, possible, margin_clear, margin_all, n_est):
+    """Decide which graph / margin to report.  If the undecidable pairs cannot
+    change the size of the maximum matching (size with all of them excluded ==
+    size with all of them included; the size is monotone in the edge set), the
+    counts are certain and only the decidable comparisons limit the margin.
+    Every maximum matching of the true graph is then a maximum matching of the
+    'possible' graph, which is therefore used for the AOR range / uniqueness."""
+    if sure == possible:
+        return possible, margin_all
+    size_lo = sum(1 for v in _max_matching(sure, n_est) if v >= 0)
+    size_hi = sum(1 for v in _max_matching(possible, n_est) if v >= 0)
+    if size_lo == size_hi:
+        return possible, margin_clear
+    return possible, margin_all
 
 
 # --------------------------------------------------------------------------
@@ -391,8 +433,9 @@ def precision_recall_f1_overlap(
     est_p = _pitches(est_pitches, len(est_iv), "Estimate")
     if not ref_iv or not est_iv:
         return (0.0, 0.0, 0.0, (0.0, 0.0)), INF
-    adj, margin = _feasible(ref_iv, est_iv, ref_p, est_p, onset_tolerance,
-                            pitch_tolerance, offset_ratio, offset_min_tolerance, strict)
+    adj, margin = _robust(*_feasible(
+        ref_iv, est_iv, ref_p, est_p, onset_tolerance, pitch_tolerance,
+        offset_ratio, offset_min_tolerance, strict), n_est=len(est_iv))
     size, _, aor, _ = _analyse(adj, len(est_iv), ref_iv, est_iv)
     precision = size / len(est_iv)
     recall = size / len(ref_iv)
@@ -407,8 +450,9 @@ def onset_precision_recall_f1(ref_intervals, est_intervals, onset_tolerance=0.05
     est_iv = _intervals(est_intervals, "Estimated")
     if not ref_iv or not est_iv:
         return (0.0, 0.0, 0.0), INF
-    adj, margin = _feasible(ref_iv, est_iv, None, None, onset_tolerance, None,
-                            None, None, strict, use_pitch=False, use_offset=False)
+    adj, margin = _robust(*_feasible(
+        ref_iv, est_iv, None, None, onset_tolerance, None, None, None, strict,
+        use_pitch=False, use_offset=False), n_est=len(est_iv))
     match_l = _max_matching(adj, len(est_iv))
     size = sum(1 for v in match_l if v >= 0)
     precision = size / len(est_iv)
@@ -427,8 +471,9 @@ def offset_precision_recall_f1(ref_intervals, est_intervals, offset_ratio=0.2,
         return (0.0, 0.0, 0.0), INF
     if offset_ratio is None:
         raise TypeError("offset_ratio must be a number for offset-only matching")
-    adj, margin = _feasible(ref_iv, est_iv, None, None, None, None, offset_ratio,
-                            offset_min_tolerance, strict, use_onset=False, use_pitch=False)
+    adj, margin = _robust(*_feasible(
+        ref_iv, est_iv, None, None, None, None, offset_ratio, offset_min_tolerance,
+        strict, use_onset=False, use_pitch=False), n_est=len(est_iv))
     match_l = _max_matching(adj, len(est_iv))
     size = sum(1 for v in match_l if v >= 0)
     precision = size / len(est_iv)
@@ -478,8 +523,9 @@ def velocity_precision_recall_f1_overlap(
     if not ref_iv or not est_iv:
         return (0.0, 0.0, 0.0, 0.0), INF
 
-    adj, margin = _feasible(ref_iv, est_iv, ref_p, est_p, onset_tolerance,
-                            pitch_tolerance, offset_ratio, offset_min_tolerance, strict)
+    adj, margin = _robust(*_feasible(
+        ref_iv, est_iv, ref_p, est_p, onset_tolerance, pitch_tolerance,
+        offset_ratio, offset_min_tolerance, strict), n_est=len(est_iv))
     size, unique, _, pairs = _analyse(adj, len(est_iv), ref_iv, est_iv)
     if size == 0:
         return (0.0, 0.0, 0.0, 0.0), margin
